@@ -581,22 +581,31 @@ func checksumInput(g *sim.Tape, body []byte, on bool) (*storage.ChecksumInput, b
 	right := checksumsOf(body)
 	ci := &storage.ChecksumInput{}
 	wrong := g.Chance(1, 3)
-	which := g.Int(6)
-	pick := func(i int, val string) *string {
-		if which != i {
-			return nil
-		}
-		if wrong {
-			return sp(corrupt(val))
-		}
-		return sp(val)
+	// 1-3 supplied values; when one is wrong it is exactly one of them, at any position
+	n := 1 + g.Int(3)
+	var chosen []int
+	start := g.Int(6)
+	for i := 0; i < n; i++ {
+		chosen = append(chosen, (start+i*(1+g.Int(2)))%6)
 	}
-	ci.ETag = pick(0, right.etag)
-	ci.ChecksumCRC32 = pick(1, right.crc32)
-	ci.ChecksumCRC32C = pick(2, right.crc32c)
-	ci.ChecksumCRC64NVME = pick(3, right.crc64)
-	ci.ChecksumSHA1 = pick(4, right.sha1)
-	ci.ChecksumSHA256 = pick(5, right.sha256)
+	bad := chosen[g.Int(len(chosen))]
+	val := func(i int, v string) *string {
+		for _, c := range chosen {
+			if c == i {
+				if wrong && i == bad {
+					return sp(corrupt(v))
+				}
+				return sp(v)
+			}
+		}
+		return nil
+	}
+	ci.ETag = val(0, right.etag)
+	ci.ChecksumCRC32 = val(1, right.crc32)
+	ci.ChecksumCRC32C = val(2, right.crc32c)
+	ci.ChecksumCRC64NVME = val(3, right.crc64)
+	ci.ChecksumSHA1 = val(4, right.sha1)
+	ci.ChecksumSHA256 = val(5, right.sha256)
 	return ci, wrong
 }
 
@@ -791,7 +800,14 @@ func (d *Driver) opCopy(g *sim.Tape) *Violation {
 	}
 	if d.Cfg.Metadata && g.Chance(1, 3) {
 		a.ReplaceTags = true
-		a.Tags = map[string]string{"copied": fmt.Sprint(g.Int(9))}
+		switch g.Int(3) {
+		case 0:
+			a.Tags = nil // REPLACE with no tag set clears the tags
+		case 1:
+			a.Tags = map[string]string{}
+		default:
+			a.Tags = map[string]string{"copied": fmt.Sprint(g.Int(9))}
+		}
 		opts.ReplaceTags = true
 		opts.Tags = a.Tags
 	}
@@ -873,6 +889,28 @@ func (d *Driver) opDelete(g *sim.Tape, byVersion bool) *Violation {
 	}
 	var ifm *string
 	mb := d.M.Buckets[b]
+	if d.Cfg.CondWrites && byVersion && mb != nil && g.Chance(1, 3) {
+		// If-Match on a version-id delete refers to the version being removed
+		if v := (*model.Ver)(nil); true {
+			if ks := mb.Keys[k]; ks != nil {
+				for _, x := range ks.Versions {
+					if x.ID == *mv {
+						v = x
+					}
+				}
+			}
+			cur := mb.Current(k)
+			switch {
+			case v != nil && !v.Marker && g.Chance(1, 2):
+				ifm = sp(v.ETag())
+			case cur != nil && (v == nil || cur != v):
+				ifm = sp(cur.ETag()) // the ETag of a different (the current) version
+			default:
+				ifm = sp("\"33333333333333333333333333333333\"")
+			}
+			opts.IfMatchETag = ifm
+		}
+	}
 	if d.Cfg.CondWrites && !byVersion && g.Chance(1, 5) && mb != nil && mb.Versioning == "" {
 		if cur := mb.Current(k); cur != nil && g.Chance(2, 3) {
 			ifm = sp(cur.ETag())
